@@ -108,6 +108,7 @@ func runC10(r *Report, p *Program) {
 	c10R7(h)
 	c10R8(h)
 	c10R9(h)
+	c10R10(h)
 }
 
 // c10R6: the cursor protocol that the parser's exceptions rest on.
